@@ -57,7 +57,10 @@ OPS == {"sort", "cdrsort", "slicepush", "append0", "restsort", "macroarg", "defi
         \* the literal crossing a function-application boundary before it reaches the in-place sort
         "applyrest", "applycdr", "applyreq", "funcallopt", "mapsort", "foldsort",
         \* Go-level configuration of one runtime's copy of a registered builtin
-        "hostwiden", "hostcall"}
+        "hostwiden", "hostcall",
+        \* a special operator that builds each step's call from a program node and a run-time value: the node (and the
+        \* spare capacity the parser left behind it) belongs to the Program, the value to the runtime
+        "threadlast"}
 LIT == <<3, 1, 2>>
 
 VARIABLES prog,      \* Program region: the literal's backing
@@ -89,6 +92,7 @@ Result(op, lit, counter, wide) ==
     [] op = "define" -> <<counter + 1>>
     [] op = "read" -> lit
     [] op = "reload" -> <<0>>
+    [] op = "threadlast" -> <<7, 8, counter>>
     [] op = "hostwiden" -> <<1>>
     [] op = "hostcall" -> IF wide THEN <<6>> ELSE <<-1>>
 
